@@ -22,8 +22,7 @@ pub async fn handle(
         .await
         .with_error_context(|error| {
             format!(
-                "{COMPONENT} (error: {error}) - failed to login with personal access token: {}, session: {session}",
-                command.token
+                "{COMPONENT} (error: {error}) - failed to login with personal access token, session: {session}"
             )
         })?;
     let identity_info = mapper::map_identity_info(user.id);
